@@ -30,6 +30,7 @@ type Case struct {
 	MaxMsg   int           `json:"maxMsg"`   // defs.InputLogMaxMessageBytes for this case (production: 1 MiB)
 	Warmup   int           `json:"warmup"`   // number of other records parsed before on the same parser (pool reuse)
 	Expect   string        `json:"expect"`   // "valid" | "any"  (valid = well-formed by construction, field oracle applies)
+	Raw      *[]byte       `json:"raw,omitempty"` // if set: the input is exactly these bytes (empty, blank, a few arbitrary bytes) instead of the rendered line; Expect = "any"
 }
 
 var facilityNames = []string{"kern", "user", "mail", "daemon", "auth", "syslog", "lpr", "news", "uucp", "cron", "authpriv", "ftp", "ntp", "audit", "alert", "clock",
@@ -128,6 +129,9 @@ func run(c Case) vh.Result {
 		}
 	}
 	input := c.Line.Bytes()
+	if c.Raw != nil {
+		input = append([]byte(nil), (*c.Raw)...)
+	}
 	orig := append([]byte(nil), input...)
 	msg := vh.Expand(c.Line.Msg)
 	res := vh.Result{}
@@ -137,7 +141,14 @@ func run(c Case) vh.Result {
 	after := e.snapshot()
 
 	priVal, priOK := isDecimalPri(c.Line.Pri)
-	wellFormed := c.Expect == "valid" && priOK && c.Line.Ver == "1" && len(input) >= 32
+	wellFormed := c.Raw == nil && c.Expect == "valid" && priOK && c.Line.Ver == "1" && len(input) >= 32
+	if c.Raw != nil {
+		priOK = true // the PRI-specific checks below are about rendered lines
+		res.Classes = append(res.Classes, "raw-short-input")
+		if len(input) == 0 {
+			res.Classes = append(res.Classes, "empty-input")
+		}
+	}
 	limit := c.MaxMsg
 	nearLimit := len(msg) >= limit-4 && len(msg) <= limit+4
 	res.NonTrivial = nearLimit || (priOK && (priVal%8 == 0 || priVal%8 == 7 || priVal >= 184)) || !wellFormed
@@ -333,6 +344,12 @@ func genValidLine(t *rapid.T, limit int) vh.SyslogLine {
 func gen(t *rapid.T) Case {
 	c := Case{Mapping: genMappings.Draw(t, "mapping"), MaxMsg: genLimit(t), Warmup: rapid.IntRange(0, 2).Draw(t, "warmup"), Expect: "valid"}
 	c.Line = genValidLine(t, c.MaxMsg)
+	if rapid.IntRange(0, 19).Draw(t, "raw") == 0 {
+		// what the reader can hand over besides records: nothing at all, blanks, a few arbitrary bytes
+		raw := rapid.OneOf(rapid.SampledFrom([][]byte{{}, {}, []byte(" "), []byte("\n"), []byte("<"), []byte("<13>"), []byte("<13>1"), []byte("\x00")}), rapid.SliceOfN(rapid.Byte(), 0, 40)).Draw(t, "rawBytes")
+		c.Raw, c.Expect = &raw, "any"
+		return c
+	}
 	if rapid.IntRange(0, 4).Draw(t, "mutate") == 0 {
 		c.Expect = "any"
 		switch rapid.IntRange(0, 4).Draw(t, "mutKind") {
@@ -362,6 +379,15 @@ func enumPri(yield func(Case) bool) {
 	mappings := [][]string{
 		{"off", "fatal", "crit", "error", "warn", "notice", "info", "debug"},
 		{"L0", "L1", "L2", "L3", "L4", "L5", "L6", "L7"},
+	}
+	// the empty input and other very short ones, several times in a row (nothing else is counted in between)
+	for rep := 0; rep < 3; rep++ {
+		for _, r := range []string{"", "", " ", "\n", "<", "<13>1 -"} {
+			raw := []byte(r)
+			if !yield(Case{Mapping: mappings[0], MaxMsg: 1000, Expect: "any", Raw: &raw}) {
+				return
+			}
+		}
 	}
 	for _, m := range mappings {
 		for pri := 0; pri <= 200; pri++ {
